@@ -100,6 +100,12 @@ def takeLocks(cmdName, path, lockType, nolocks=False, ntry=10, verbose=0):
                                 continue
                     else:
                         if not os.path.exists(lockDir):
+                            if e.errno == errno.EEXIST: # the last holder removed the directory as we looked
+                                if i == ntry:
+                                    raise RuntimeError("Unable to take shared lock on %s: %s keeps vanishing" %
+                                                       (d, lockDir))
+                                continue
+
                             if verbose:
                                 print("Unable to lock %s; proceeding with trepidation" % d, file=utils.stdwarn)
                             return locks
@@ -127,8 +133,41 @@ def takeLocks(cmdName, path, lockType, nolocks=False, ntry=10, verbose=0):
                     else:
                         raise RuntimeError(("Unable to take shared lock on %s: " +
                                             "an exclusive lock is held by %s") % (d, " ".join(lockers)))
+                #
+                # Create a file in it
+                #
+                who = utils.getUserName()
+                pid = os.getpid()
 
-                break                   # got the lock
+                lockFile = "%s-%s.%d" % (lockTypeName, who, pid)
+
+                try:
+                    fd = os.open(os.path.join(lockDir, lockFile), os.O_EXCL | os.O_RDWR | os.O_CREAT)
+                    os.close(fd)
+                except OSError as e:
+                    if e.errno != errno.EEXIST:
+                        # should not occur
+                        raise
+                #
+                # The checks above and the creation of our file are not atomic, so someone may have slipped in
+                # between them.  Look again now that everyone can see our file (if two processes race at least
+                # one of them sees the other): an exclusive lock tolerates no other lock, a shared lock no
+                # exclusive one, except for locks held by the process we inherited EUPS_LOCK_PID from
+                #
+                rivals = listLockers(lockDir, "*" if lockType == LOCK_EX else "exclusive*",
+                                     ignorePids=("%d" % pid, os.environ.get("EUPS_LOCK_PID", "-1")))
+                if not rivals:
+                    break               # got the lock
+
+                giveLocks([(lockDir, lockFile)], verbose) # we lost; withdraw
+                msg = "Unable to take %s lock on %s: locks are held by %s" % (lockTypeName, d, " ".join(rivals))
+                if lockType != LOCK_EX or i == ntry:
+                    raise RuntimeError(msg)
+
+                print("%s; retrying" % msg, file=utils.stdinfo)
+                utils.stdinfo.flush()
+
+                time.sleep(dt)
 
             if not makeLock:
                 continue
@@ -136,22 +175,6 @@ def takeLocks(cmdName, path, lockType, nolocks=False, ntry=10, verbose=0):
             if "EUPS_LOCK_PID" not in os.environ: # remember the PID of the process taking the lock
                 os.environ["EUPS_LOCK_PID"] = "%d" % os.getpid()
                 os.putenv("EUPS_LOCK_PID", os.environ["EUPS_LOCK_PID"])
-            #
-            #
-            # Create a file in it
-            #
-            who = utils.getUserName()
-            pid = os.getpid()
-
-            lockFile = "%s-%s.%d" % (lockTypeName, who, pid)
-
-            try:
-                fd = os.open(os.path.join(lockDir, lockFile), os.O_EXCL | os.O_RDWR | os.O_CREAT)
-                os.close(fd)
-            except OSError as e:
-                if e.errno != errno.EEXIST:
-                    # should not occur
-                    raise
 
             locks.append((lockDir, lockFile))
 
@@ -189,9 +212,15 @@ def giveLocks(locks, verbose=0):
 
             os.remove(f)
 
-        nlockFiles = len(next(os.walk(d))[2])
-        if nlockFiles == 0:
-            os.rmdir(d)
+        try:
+            nlockFiles = len(next(os.walk(d))[2])
+            if nlockFiles == 0:
+                os.rmdir(d)
+        except StopIteration:           # someone else removed the directory since we looked
+            pass
+        except OSError as e:            # or did so just now, or has just taken a new lock in it
+            if e.errno not in (errno.ENOENT, errno.ENOTEMPTY, errno.EEXIST):
+                raise
 
 def clearLocks(path, verbose=0, noaction=False):
     """Remove all locks found in the directories listed in path"""
@@ -231,8 +260,8 @@ def listLocks(path, verbose=0, noaction=False):
 
         print("%-30s %s" % (d + ":", " ".join(listLockers(lockDir))))
 
-def listLockers(lockDir, globPattern="*", getPids=False):
-    """List all the owners of locks in a lockDir"""
+def listLockers(lockDir, globPattern="*", getPids=False, ignorePids=()):
+    """List all the owners of locks in a lockDir, except for the processes listed in ignorePids"""
     lockers = []
     for f in [os.path.split(f)[1] for f in glob.glob(os.path.join(lockDir, globPattern))]:
         mat = re.search(r"^(exclusive|shared)-(.+)\.(\d+)$", f)
@@ -241,6 +270,9 @@ def listLockers(lockDir, globPattern="*", getPids=False):
             continue
 
         lockType, who, pid = mat.groups()
+        if pid in ignorePids:
+            continue
+
         if getPids:
             lockers.append(pid)
         else:
